@@ -29,7 +29,8 @@ register("C09", "regions_vs_closed_form_oracle", "c09_c10_oracle.py C09", "scale
          covers=("C09/Rect.is_dominated[", "C09/Ell.is_dominated["))
 register("C10", "rect_covered_vs_LP_oracle", "c09_c10_oracle.py C10", "scales 1e-4..1e2 x 6 cones x 6 random rectangle pairs, HiGHS LP oracle, margin > 1e-5*scale",
          covers=("C10/Rect.is_covered[",))
-register("C04", "exact_tail_sums", "c04_tails.py", "K in {1,5,200}, m in {2,3,6}, delta in {0.9,0.1,0.001}, rounds t <= 20000 (step upper bound), exact scipy tails", thorough_only=True)
+register("C04", "exact_tail_sums", "c04_tails.py", "K in {1,5,200}, m in {2,3,6}, delta in {0.9,0.1,0.001}, rounds t <= 20000 (step upper bound), exact scipy tails", thorough_only=True,
+         covers=("C04/Auer.compute_beta", "C04/EpsilonPAL.compute_beta", "C04/VOGP.compute_beta", "C04/PaVeBa.compute_radius", "C04/PaVeBaGP.compute_alpha", "C04/PaVeBaPartialGP.compute_alpha"))
 register("C08", "two_design_failure_probability", "c08_pac.py", "theta in {45,60,90,120}, noise_var in {0.05,0.5,1,4}, eps in {0.2,1}, delta in {0.1,0.01}; union bound over facets")
 register("C12", "icecream_tangency_and_theta_90", "c12_icecream.py", "K in {3..12,16,32,64} x half-angles {5,20,45,60,85}; theta = 90 (one point)")
 register("C17", "optima_vs_certificates", "c17_optima.py", "11 bundled cones + 6 random cones in 2-4-D: alpha vs NNLS projection, u* KKT, beta = 1/alpha",
